@@ -14,10 +14,16 @@ S2C: every complete behaviour TLC enumerates is replayed on the real combinators
 C2S: seeded random runs with up to 8 inputs recorded from the real objects are validated by
      TLC against Trace_Combinators (all invariants evaluated at every step).
 
-Binding demonstrated during development (scratch worktree, see notes/futures.md): dropping the
-`listening` de-duplication in multi_future, copying the result instead of the exception in
-chain_future, `>=`-style off-by-one in WaitIterator queueing, removing `if not result.done()`
-in with_timeout's timeout callback - each reported as VIOLATION by the S2C replay.
+Binding demonstrated during development (scratch worktree, details in notes/futures.md), each
+reported by the S2C replay: `if not unfinished_children` -> `len(..) <= 1` in multi_future (output
+settles early with InvalidStateError); reversed scan for the failing child in multi_future (E2
+reported instead of E1); dropped `not self._running_future.done()` in WaitIterator._done_callback
+(an input completing after the application cancelled next() is lost: cur / done() differ);
+`if b.done()` -> `if b.cancelled()` in chain_future (the call raises InvalidStateError on a
+completed target).  The trace validation is exercised on every run by futures_gen.binding_demo
+(a corrupted observation and a dropped `create` event must be rejected).  On the pinned commit the
+check re-found F01 (cancelled inputs) and found F22 (WaitIterator duplicates); both are fixed in
+/repo now, so any recurrence is a VIOLATION.
 """
 import random
 import time
@@ -185,7 +191,8 @@ def run(ctx):
         o = ev["obs"]["out"]
         ev["obs"]["out"] = {"s": "ok", "v": [4242], "e": ""} if o["s"] != "ok" else {"s": "pending", "v": [], "e": ""}
     futures_gen.binding_demo(ctx, "futures", "Trace_Combinators", "Trace_Combinators.cfg",
-                             [t for t in traces if t["cfg"]["comb"] in ("multi", "multid", "timeout", "chain")], corrupt)
+                             [t for t in traces if t["cfg"]["comb"] in ("multi", "multid", "timeout")
+                              and t["ev"] and t["ev"][-1]["obs"]["out"]["s"] != "pending"], corrupt, "create")
     ctx.cov["rule"] = ("paths: every complete behaviour (resolve/fail/cancel each input in every order, create at every "
                        "point, next() calls, clock advances, cancel of the output) of every combinator over every "
                        "canonical assignment of <= 3 futures to <= 3 positions incl. duplicates (thorough: also 4 distinct "
